@@ -43,7 +43,10 @@ def P(x):
 def rand_leaf(rng):
     k = rng.random()
     if k < 0.35:
-        return rng.choice([F.num('1'), F.num('2'), F.num('0'), F.string('qq'), F.num('2.5')])
+        # also: the empty text, a blank (NULL), and text that is spelled like an error code but is text
+        return rng.choice([F.num('1'), F.num('2'), F.num('0'), F.string('qq'), F.num('2.5'), F.string(''), F.var('NULL'),
+                           F.string(rng.choice(['#N/A', '#DIV/0!', '#VALUE!', '#REF!', '#NAME?'])), F.var('TRUE'),
+                           F.binop('&', F.string('#N'), F.string('/A'))])
     if k < 0.5:
         return F.errlit(rng.choice(LIT))
     if k < 0.6:
@@ -110,6 +113,23 @@ def main(tier, replay=None):
     else:
         run.exhaustive = True
     asts += [rand_tree(rng, rng.randint(2, 5)) for _ in range(4000 if quick else 100000)]
+    # every error source against the plain values an implementation is tempted to special-case (empty text, blank,
+    # text spelled like a code), under every operator and every trapping function
+    srcs = [F.errlit(c) for c in LIT[:4]] + [F.binop('/', F.num('1'), F.num('0')), F.call('NA'), F.call('ERRVA'), F.call('ERRRD'),
+                                             F.call('SUM', F.call('ERRVN'))]
+    plains = [F.string(''), F.var('NULL'), F.string('#N/A'), F.string('#DIV/0!'), F.num('0'), F.var('FALSE'), F.string('qq')]
+    for e in srcs:
+        for pl in plains:
+            for op in ('&', '+', '=', '<>', '<', '*'):
+                asts.append(F.binop(op, P(e), pl))
+                asts.append(F.binop(op, pl, P(e)))
+                asts.append(F.call('ISERROR', F.binop(op, pl, P(e))))
+                asts.append(F.call('IFERROR', F.binop(op, P(e), pl), F.num('9')))
+    for pl in plains:
+        for f in ('ISERROR', 'ISERR', 'ISNA', 'ERROR.TYPE'):
+            asts.append(F.call(f, pl))
+        asts += [F.call('IFNA', pl, F.num('9')), F.call('IFERROR', pl, F.num('9')), F.call('IFERROR', F.num('9'), pl),
+                 F.call('IFNA', F.binop('&', pl, F.string('')), F.num('9'))]
     obs = observe(lib, asts, env)
     so = suite.observations({'IFERROR','IFNA','ISERROR','ISERR','ISNA','ERROR.TYPE','NA'}, len(obs) + 1)   # the same functions as the repository's own tests call them
     run.extra['calls_from_repository_tests'] = len(so)
